@@ -179,6 +179,9 @@ func oracleC02(op string, args []string) string {
 	} else {
 		e3 = m.GsmMessageEncode(buf)
 	}
+	if e3 != nil {
+		return "FAIL a well-formed message does not encode into a buffer that already holds another message: " + e3.Error()
+	}
 	if e3 == nil && buf.Len() >= len(first) {
 		all := buf.Bytes()
 		p1 := append([]byte{}, all[:len(first)]...)
